@@ -8,8 +8,13 @@ CONSTANTS
   AllowVSkip = FALSE
   AllowReturn = FALSE
   AllowMoved = FALSE
+  AllowHost = FALSE
+  AllowRename = FALSE
   MaxFunctions = 0
   Stepwise = FALSE
+  AliasRecheck = TRUE
+  CallableWalks = 2
+  RenameScopeCheck = TRUE
   COrder = TRUE
   Orders <- Id5
   KnownShapes <- Known_c
